@@ -402,7 +402,7 @@ Proof.
   - (* GFinalize: invisible to the voting abstraction *)
     unfold valid_id. destruct (N.ltb_spec i (n_nodes cfg)) as [Hi|]; cbn [fst]; [|exact Stay].
     exists a. split; [left; reflexivity|]. apply R_stutter; auto.
-    + unfold finalize. destruct (N.leb h (commit (nth_node (nodes s) i))); reflexivity.
+    + unfold finalize. match goal with |- context [if ?c then _ else _] => destruct c end; reflexivity.
     + intros d m0 [].
   - (* GCompact: invisible to the voting abstraction *)
     unfold valid_id. destruct (N.ltb_spec i (n_nodes cfg)) as [Hi|]; cbn [fst]; [|exact Stay].
